@@ -398,11 +398,13 @@ class BaseClientHandler:
         because they are no longer listening to the mailbox (but they will
         empty the list of pending expunges.
         """
-        if self.pending_notifications:
-            # Take the list before we push it: push() can suspend on a slow
-            # client and whatever is queued for us meanwhile must stay
-            # queued for the next flush.
-            #
+        # Take the list before we push it: push() can suspend on a slow
+        # client and whatever is queued for us meanwhile must stay queued.
+        # We go round until nothing is left so that our callers can rely on
+        # the queue being empty when we return (they go on to push
+        # notifications directly, which must not overtake queued ones.)
+        #
+        while self.pending_notifications:
             notifications = self.pending_notifications
             self.pending_notifications = []
             await self.client.push(*notifications)
@@ -1761,6 +1763,12 @@ class Authenticated(BaseClientHandler):
         #
         expunge_cmd = IMAPClientCommand("A001 MOVE")
         expunge_cmd.command = IMAPCommand.MOVE
+
+        # What other clients' commands queued for us while we were writing to
+        # the destination goes out first: the EXPUNGEs we are about to push
+        # directly are numbered after them.
+        #
+        await self.send_pending_notifications()
         try:
             idling = self.idling
             self.idling = True
